@@ -161,3 +161,45 @@ Theorem mv_no_answer_outside_guard fuel K intent bg base pti pstart :
 Proof.
   intros bo Hbo Hn l H. apply Hn. apply (mv_sound_in_base fuel K intent bg base pti pstart l Hbo H).
 Qed.
+
+(* the by-name entry point is the by-index one on the arguments translated through the pattern
+   structures' own names, its answer re-keyed by those names *)
+Theorem mv_named_is_renamed_index fuel K snames onames intent bg base pti pstart l :
+  mv_get_minimal_generators_named fuel K snames onames intent bg base pti pstart = MOk l ->
+  exists l',
+    mv_get_minimal_generators fuel K (by_struct_names snames intent)
+      (match bg with Some d => Some (by_struct_names snames d) | None => None end)
+      (match base with Some b => Some (idx_of_names onames b) | None => None end)
+      (match pti with Some p => Some (map (name_to_ps snames) p) | None => None end) pstart = MOk l' /\
+    l = map (rename_dd snames) l'.
+Proof.
+  unfold mv_get_minimal_generators_named.
+  destruct (mv_get_minimal_generators fuel K _ _ _ _ pstart) as [l'| |]; intros H; inversion H.
+  exists l'. split; reflexivity.
+Qed.
+
+(* a full by-name intent (every structure, keyed by its name) translates to the by-index intent *)
+Lemma by_struct_names_full (snames : list nat) (f : nat -> descr) :
+  NoDup snames ->
+  by_struct_names snames (map (fun ps => (nth ps snames 0, f ps)) (seq 0 (length snames)))
+  = map (fun ps => (ps, f ps)) (seq 0 (length snames)).
+Proof.
+  intros Hnd. unfold by_struct_names.
+  set (d := map (fun ps => (nth ps snames 0, f ps)) (seq 0 (length snames))).
+  assert (G : forall ps, ps < length snames -> lookup_name d (nth ps snames 0) = Some (f ps)).
+  { intros ps Hps. unfold lookup_name.
+    destruct (find (fun kv : nat * descr => Nat.eqb (fst kv) (nth ps snames 0)) d) as [[nm v]|] eqn:F.
+    - apply find_some in F. destruct F as [F1 F2]. cbn [fst] in F2. apply Nat.eqb_eq in F2.
+      unfold d in F1. apply in_map_iff in F1. destruct F1 as [q [E Hq]]. injection E as E1 E2. apply in_seq in Hq.
+      assert (Hq2 : q = ps) by (apply (proj1 (NoDup_nth snames 0) Hnd); [lia | exact Hps | congruence]).
+      rewrite <- E2, Hq2. reflexivity.
+    - exfalso. pose proof (find_none _ _ F (nth ps snames 0, f ps)) as X. cbn [fst] in X.
+      rewrite Nat.eqb_refl in X. assert (D : true = false -> False) by discriminate. apply D, X.
+      unfold d. apply in_map_iff. exists ps. split; [reflexivity | apply in_seq; lia]. }
+  assert (H : forall l, (forall ps, In ps l -> ps < length snames) ->
+              flat_map (fun ps => match lookup_name d (nth ps snames 0) with Some v => [(ps, v)] | None => [] end) l
+              = map (fun ps => (ps, f ps)) l).
+  { induction l as [|a l IH]; intros Hl; [reflexivity|]. cbn [flat_map map].
+    rewrite (G a (Hl a (or_introl eq_refl))). cbn [app]. f_equal. apply IH. intros q Hq. apply Hl. right. exact Hq. }
+  apply H. intros ps Hps. apply in_seq in Hps. lia.
+Qed.
